@@ -8,6 +8,8 @@ set -uo pipefail
 cd "$(dirname "$0")/.."
 . tools/env.sh
 OUT="$(readlink -f "$1")"; N="${2:-20}"; SEED="${3:-1}"
+# optional sharding (two campaigns side by side): SHARD=k SHARDS=n WORKERS=w tools/automut.sh ...
+SHARD="${SHARD:-0}"; SHARDS="${SHARDS:-1}"; WORKERS="${WORKERS:-16}"; CNT=0
 MUT="$VERIF_CACHE/bin/automut"
 [ -x "$MUT" ] || ( cd tools/automut && go build -o "$MUT" . ) || exit 2
 SCR="$(mktemp -d /dev/shm/automut-XXXXXX)"; trap 'rm -rf "$SCR" "$VERIF_CACHE"/bin/*-alt-$(echo "$SCR/repo" | md5sum | cut -c1-8) "$VERIF_CACHE"/go.alt.$(echo "$SCR/repo" | md5sum | cut -c1-8).*' EXIT
@@ -26,6 +28,7 @@ l=[x.strip() for x in sys.stdin if x.strip()]
 random.Random('$SEED$f').shuffle(l)
 print('\n'.join(l[:$N]))" | while read idx kind line fn; do
     [ -z "$idx" ] && continue
+    CNT=$((CNT+1)); [ $((CNT % SHARDS)) -ne "$SHARD" ] && continue
     grep -q "^$f	$idx	" "$OUT" && continue
     cp "/repo/boltz/$f" "$SCR/repo/boltz/$f"
     if ! "$MUT" apply "/repo/boltz/$f" "$idx" > "$SCR/mut.go" 2>/dev/null; then continue; fi
@@ -36,7 +39,7 @@ print('\n'.join(l[:$N]))" | while read idx kind line fn; do
       printf "%s\t%s\t%s\t%s\t%s\tkilled-by-suite\t\n" "$f" "$idx" "$kind" "$line" "$fn" >> "$OUT"; continue; fi
     res="survived"; detail=""
     for c in ${CHECKS[$f]}; do
-      o="$(VERIF_REPO="$SCR/repo" VERIF_OUT="$SCR/out" timeout 900 tools/check.sh "$c" quick runs=${RUNS[$c]} 2>&1)"; rc=$?
+      o="$(VERIF_REPO="$SCR/repo" VERIF_OUT="$SCR/out" timeout 900 tools/check.sh "$c" quick runs=${RUNS[$c]} workers=$WORKERS 2>&1)"; rc=$?
       if [ $rc -eq 1 ]; then res="killed-by-check"; detail="$c $(echo "$o" | grep -o 'sig=[^ ]*' | head -1)"; break; fi
       if [ $rc -ne 0 ]; then res="check-trouble"; detail="$c exit=$rc $(echo "$o" | grep -m1 -o 'watchdog\|HARNESS-ERROR.*\|worker [0-9]* failed' | cut -c1-60)"; break; fi
     done
